@@ -77,6 +77,7 @@ pub enum Fault {
     WrongIncident(usize),                // incident_cell := a live cell not containing the vertex
     UnmapVertexUuid(usize),
     DropNeighborBuffer(usize),
+    CutOffCell(usize),                   // every neighbour of the cell removed cleanly: a one-cell component without a neighbour buffer
 }
 
 fn apply<const D: usize>(tds: &mut T<D>, f: &Fault, stale_cell: CellKey, s: i32) -> bool {
@@ -216,6 +217,14 @@ fn apply<const D: usize>(tds: &mut T<D>, f: &Fault, stale_cell: CellKey, s: i32)
             true
         }
         Fault::UnmapVertexUuid(a) => tds.verif_unmap_vertex_uuid(vk(*a)),
+        Fault::CutOffCell(c) => {
+            let a = ck(*c);
+            let nbs: Vec<CellKey> = tds.get_cell(a).and_then(|cell| cell.neighbors().map(|b| b.iter().flatten().copied().collect())).unwrap_or_default();
+            if nbs.is_empty() || nbs.len() + 1 >= cks.len() {
+                return false;
+            }
+            tds.remove_cells_by_keys(&nbs) == nbs.len()
+        }
         Fault::DropNeighborBuffer(c) => {
             let Some(cell) = tds.get_cell_by_key_mut(ck(*c)) else { return false };
             let had = cell.neighbors().is_some_and(|b| b.iter().any(Option::is_some));
@@ -275,7 +284,8 @@ fn fault_case<K: Kern<D>, const D: usize>(cx: &mut Ctx, r: &mut Rng, idx: usize)
     let g = GUARANTEES[idx % 3];
     cx.start_case(format!("C05 faults D={D} k={} g={g:?} i={idx}", K::NAME));
     let hi = max_coord(D);
-    let n = D + 2 + r.below(3);
+    // every third case a larger complex (room for two independent faults)
+    let n = if idx % 3 == 2 && D <= 3 { D + 5 + r.below(4) } else { D + 2 + r.below(3) };
     let pts = if idx % 2 == 0 { gp_points(r, D, n.min(7), hi) } else { random_points(r, D, n, hi) };
     if pts.len() < D + 1 {
         return;
@@ -300,6 +310,25 @@ fn fault_case<K: Kern<D>, const D: usize>(cx: &mut Ctx, r: &mut Rng, idx: usize)
             let a = r.pick(&faults).clone();
             let b = r.pick(&faults).clone();
             plans.push(vec![a, b]);
+        }
+    }
+    // a cut-off one-cell component (legal at Level 2) together with a fault somewhere else: what one
+    // cell looks like must not decide whether the others are examined
+    {
+        let nc = dt.number_of_cells();
+        for t in 0..(if cx.thorough { 60 } else { 16 }) {
+            let c0 = if t % 2 == 0 { 0 } else { r.below(nc) };
+            let (a, b) = (r.below(D + 1), r.below(D + 1));
+            let second = match t % 4 {
+                0 | 1 => Fault::SwapSlots(r.below(nc), a.min(b), a.max(b)),
+                2 => Fault::InvertCell(r.below(nc), a.min(b), a.max(b)),
+                _ => r.pick(&faults).clone(),
+            };
+            plans.push(vec![Fault::CutOffCell(c0), second.clone()]);
+            plans.push(vec![second, Fault::CutOffCell(c0)]);
+        }
+        for c in 0..nc.min(6) {
+            plans.push(vec![Fault::CutOffCell(c)]);
         }
     }
     for plan in plans {
